@@ -12,7 +12,7 @@ static const ber_tlv_tag_t asn_DEF_NumericString_tags[] = {
 	(ASN_TAG_CLASS_UNIVERSAL | (18 << 2)),	/* [UNIVERSAL 18] IMPLICIT ...*/
 	(ASN_TAG_CLASS_UNIVERSAL | (4 << 2))	/* ... OCTET STRING */
 };
-static int asn_DEF_NumericString_v2c(unsigned int value) {
+int asn_DEF_NumericString_v2c(unsigned int value) {
 	switch(value) {
 	case 0x20: return 0;
 	case 0x30: case 0x31: case 0x32: case 0x33: case 0x34:
@@ -21,7 +21,7 @@ static int asn_DEF_NumericString_v2c(unsigned int value) {
 	}
 	return -1;
 }
-static int asn_DEF_NumericString_c2v(unsigned int code) {
+int asn_DEF_NumericString_c2v(unsigned int code) {
 	if(code > 0) {
 		if(code <= 10)
 			return code + (0x30 - 1);
